@@ -14,6 +14,7 @@ rewriting meets, including in nodes produced by earlier rewrites
 | flag | region | finding |
 |---|---|---|
 | `zero-arg-expr` | matched `assert()` in expression position | F18 |
+| `underscore-in-args` | statement `assert(t.x, f(_))`: inside the `do` block the kept non-call argument becomes `local _ = t.x` and the later kept argument reads that local instead of the program's `_` | F36 |
 | `multi-position` | profiling call as the last element of an argument / return / table list: becomes one `nil` instead of no value | F33 |
 | `global-write` | the program assigns the targeted global itself (`assert = …`, `function assert() … end`, `NAME = …`, `_G.NAME = …`, `debug.profilebegin = …`): outside the property's quantifier, the rule cannot know | – |
 
@@ -78,3 +79,64 @@ def inRegion (ident : String) (value : Expr) (b : Block) : Bool × Bool × Bool 
     (InjectValue.apply ident value b).toSexp.toString == (applyVar ident value b).toSexp.toString)
 
 end DarkluaModel.C17.Whole
+
+/-! ### the region of the whole-rule theorem `assert_refines_whole` (`C17/WholeAssert.lean`, `C17/Thm.lean`)
+
+`processorW` is the processor of remove_assertions (side effects preserved) whose loops only perform the
+rounds the stage-3 lifting theorem has links for: expression position with exactly ONE argument
+(`assert(e)` → `e`), statement position when every kept argument is a call (under parentheses / casts)
+and every dropped argument is an atom, or every kept argument is a non-call (one `do local _ = … end`). `applyW` has no reserved-global declaration (no `select` form). -/
+namespace DarkluaModel.C17.WholeAssert
+open Rules Rules.RemoveCallMatch
+
+/-- literals, identifiers, `...`, possibly parenthesised: evaluate purely in every context -/
+def isAtomP : Expr → Bool
+  | .nil | .true | .false | .num _ | .str _ | .var _ | .vararg => true
+  | .paren e => isAtomP e
+  | _ => false
+
+/-- dropped arguments are atoms, and the kept ones are either all calls (→ call statements) or all
+non-calls (→ one `do local _ = … end`) -/
+def stmtOK (args : List Expr) : Bool :=
+  (args.all fun e => keeps e || isAtomP e) &&
+  ((args.all fun e => !keeps e || isCall (getInner e)) || (args.all fun e => !keeps e || !isCall (getInner e)))
+
+def exprRoundOK : Expr → Bool
+  | .call _ none _ [_] => true
+  | _ => false
+
+def stmtRoundOK : Stmt → Bool
+  | .callStmt (.call _ none .tuple args) => stmtOK args
+  | _ => false
+
+def processStatementLoopW (M : Matcher) : Nat → Stmt → St → Stmt × St
+  | 0, s, st => (s, st)
+  | n + 1, s, st =>
+    if stmtMatched M st s && stmtRoundOK s then
+      let r := processStatementOnce M true s st
+      processStatementLoopW M n r.1 r.2
+    else (s, st)
+
+def processExpressionLoopW (M : Matcher) : Nat → Expr → St → Expr × St
+  | 0, e, st => (e, st)
+  | n + 1, e, st =>
+    if exprMatched M st e && exprRoundOK e then
+      let r := processExpressionOnce M true e st
+      processExpressionLoopW M n r.1 r.2
+    else (e, st)
+
+def processorW (M : Matcher) : Processor St :=
+  { RemoveCallMatch.processor M true with
+    stmt := fun s st => processStatementLoopW M (s.size + 1) s st
+    expr := fun e st => processExpressionLoopW M (e.size + 1) e st }
+
+def applyW (b : Block) : Block := (Visitor.runScoped (processorW RemoveAssertions.matcher) b {}).1
+
+/-- is the program inside the hypotheses of `assert_refines_whole`? it never declares or assigns `assert`,
+and the rule's run coincides with the restricted run -/
+def inRegion (b : Block) : Bool × Bool :=
+  (!b.refs (.wat "assert"),
+    (RemoveAssertions.apply true b).1.toSexp.toString == (applyW b).toSexp.toString)
+
+end DarkluaModel.C17.WholeAssert
+
